@@ -284,7 +284,11 @@ func checkC03() fw.Check {
 			}
 			for _, v := range refmatch.Variants {
 				for _, w := range wins {
-					for bi, b := range basesQuick {
+					bs := basesQuick
+					if v.Proto == "syn" {
+						bs = append(append([]base{}, bs...), basesThorough[2]) // IP-IDs that pass through 0 inside the window
+					}
+					for bi, b := range bs {
 						v, w, b := v, w, b
 						id := fmt.Sprintf("C03/real/%s/%d-%d/%s", v.Name, w.first, w.last, b.name)
 						cases = append(cases, fw.Case{ID: id, Bubble: true, Run: func(c *fw.Ctx) {
@@ -346,7 +350,7 @@ func checkC03() fw.Check {
 			}
 			// the lists a whole request returns, after its post-processing (normalisation, private-hop redaction): still one
 			// entry per TTL, consecutive from the first TTL, whatever the first TTL and whichever entries were redacted
-			for i, proto := range []string{"udp", "icmp", "tcp"} {
+			for i, proto := range []string{"udp", "icmp", "tcp", "tcp-sack"} {
 				for _, first := range []int{1, 3} {
 					for _, skip := range []bool{false, true} {
 						i, proto, first, skip := i, proto, first, skip
@@ -362,12 +366,20 @@ func checkC03() fw.Check {
 
 func runC03Request(c *fw.Ctx, id, proto string, first int, skip bool, k int) {
 	resetProcessState()
-	v := map[string]refmatch.Variant{"udp": refmatch.VariantByName("udp4"), "icmp": refmatch.VariantByName("icmp4"), "tcp": refmatch.VariantByName("syn")}[proto]
+	v := map[string]refmatch.Variant{"udp": refmatch.VariantByName("udp4"), "icmp": refmatch.VariantByName("icmp4"), "tcp": refmatch.VariantByName("syn"), "tcp-sack": refmatch.VariantByName("syn")}[proto]
 	target := drive.TargetFor(v, 50+c.Worker)
 	const maxTTL, dist = 9, 7
-	params := traceroute.TracerouteParams{Hostname: target.String(), Port: 33434, Protocol: proto, MinTTL: first, MaxTTL: maxTTL, Delay: 10, Timeout: 200 * time.Millisecond,
-		TCPMethod: traceroute.TCPConfigSYN, TracerouteQueries: 2, E2eQueries: 1, SkipPrivateHops: skip}
-	env, err := newReqEnv(c, params, target, 33434, false)
+	method, port := traceroute.TCPConfigSYN, 33434
+	if proto == "tcp-sack" {
+		// the path runs use selective acknowledgements against a target that permits them (the end-to-end probe is a SYN)
+		proto, method, port = "tcp", traceroute.TCPConfigSACK, 24000+c.Worker
+		if k%2 == 1 {
+			method = traceroute.TCPConfigPreferSACK
+		}
+	}
+	params := traceroute.TracerouteParams{Hostname: target.String(), Port: port, Protocol: proto, MinTTL: first, MaxTTL: maxTTL, Delay: 10, Timeout: 200 * time.Millisecond,
+		TCPMethod: method, TracerouteQueries: 2, E2eQueries: 1, SkipPrivateHops: skip}
+	env, err := newReqEnv(c, params, target, uint16(port), method != traceroute.TCPConfigSYN)
 	if err != nil {
 		c.Inconclusive(err.Error())
 		return
@@ -413,5 +425,5 @@ func runC03Request(c *fw.Ctx, id, proto string, first int, skip bool, k int) {
 		}
 		c.Count("request_runs_shaped", 1)
 	}
-	c.Nontrivial(fmt.Sprintf("request/%s/first%d/skip%v", proto, first, skip))
+	c.Nontrivial(fmt.Sprintf("request/%s/%s/first%d/skip%v", proto, method, first, skip))
 }
